@@ -551,3 +551,32 @@ Proof.
   - intros c Hc. unfold nrw_nr in Hc. apply Nat.eqb_eq in Hc. subst. split; [cbn; lia|reflexivity].
   - repeat split; vm_compute; reflexivity.
 Qed.
+
+(** * Amounts at and above the machine-word boundaries, addresses that are not 20 bytes long
+
+      Every theorem above is over unbounded [Z] and over [ABadLen] = any byte string whose length is
+      not 20 (19, 21 or the 32 bytes of a left-padded ABI word).  Non-vacuity at the inputs the
+      harness drives on purpose: an ERC20 amount of 20*10^18 + 7 (>= 2^64) and of exactly 2^64 of a
+      bep3 pair lock floor(x/10^10)*10^10 — the dust (7; 2^64 mod 10^10 = 3709551616) stays with the
+      user and the coin supply times 10^10 equals what is locked; a list that names the contract of an
+      enabled pair a second time under a byte string of another length is refused. *)
+Definition ex_state_big : state :=
+  mk_state [[0; 0; 500; 0]; [0; 0; 40; 0]; [0; 0; 0; 0]; [0; 0; 0; 0]] [0; 0; 540; 0]
+           [(2 ^ 64 + 20000000000000000007, [20000000000000000007; 2 ^ 64; 0; 0]); (90, [50; 40; 0; 0]); (0, [77; 0; 0; 0])]
+           [] [(0, 0); (1, 1); (2, 3)]%nat [2%nat].
+
+Example C10_word_boundary_nonvacuous :
+  let P := fun c d => mkPraw (ACtr c) (Some d) in
+  let T := fun d => mkTraw (Some d) true (Some d) true in
+  let o1 := (ConvERC20ToCoin false 0 1 0 20000000000000000007)%nat in
+  let o2 := (ConvERC20ToCoin false 1 0 0 (2 ^ 64))%nat in
+  let s1 := step' ex_env ex_state_big o1 in
+  let s2 := step' ex_env s1 o2 in
+  class_of (step ex_env ex_state_big o1) = ROk /\ class_of (step ex_env s1 o2) = ROk /\
+  (ebal (erc s1 0) 0, ebal (erc s1 0) 2, bal s1 1 0, sup s1 0)%nat = (7, 20000000000000000000, 2000000000, 2000000000) /\
+  (ebal (erc s2 0) 1, ebal (erc s2 0) 2, bal s2 0 0, sup s2 0)%nat = (3709551616, 38446744070000000000, 1844674407, 3844674407) /\
+  sup s2 0%nat * 10 ^ 10 = ebal (erc s2 0%nat) 2%nat /\
+  inv_b ex_env s2 = true /\
+  step ex_env s2 (SetParams [P 0 0; P 1 1; mkPraw ABadLen (Some 2)]%nat [T 2%nat]) = Err /\
+  class_of (step ex_env s2 (SetParams [P 0 0; P 1 1]%nat [T 2%nat])) = ROk.
+Proof. cbv zeta. repeat split; vm_compute; reflexivity. Qed.
